@@ -25,7 +25,7 @@ RULE = ('process programs (sync/async steps, waits with resume values, continuat
 ASSUMPTIONS = ['steps depend only on persisted state by construction (trace and scripts live in persisted members / ctx / inputs)',
                'WorkChains waiting on futures are not checkpoint points (they cannot be saved)']
 REQUIRED = ['restores', 'kinds/process', 'kinds/outline', 'transport/pickle', 'crash_in_wait', 'multi_restore', 'traces_compared', 'ctx_compared',
-            'inputs/none', 'inputs/empty', 'inputs/given', 'outline_nodes/if', 'outline_nodes/while', 'elif_or_else_body_crash', 'lost_work_restores', 'transport/mem-live', 'transport/pkfile-live', 'transport/bundle-live', 'codec_processes', 'midstep_saves']
+            'inputs/none', 'inputs/empty', 'inputs/given', 'outline_nodes/if', 'outline_nodes/while', 'elif_or_else_body_crash', 'lost_work_restores', 'transport/mem-live', 'transport/pkfile-live', 'transport/bundle-live', 'codec_processes', 'midstep_saves', 'loaded_with_other_loop_current']
 BOUNDS = {'quick': 'basic family + 12 random programs, 60 outlines, crash subsets <=2', 'thorough': '+150 random programs, 800 outlines, subsets <=3, persister/YAML transports'}
 
 
@@ -66,7 +66,7 @@ def gen_cases(tier, seed):
                     sets = rng.sample(sets, 40)
                 for cs in sets:
                     yield {'kind': 'process', 'name': name, 'program': prog, 'inputs': inputs, 'ctx': ctxprog, 'crash': cs,
-                           'transport': rng.choice(transports), 'codec': rng.random() < 0.25}
+                           'transport': rng.choice(transports), 'codec': rng.random() < 0.25, 'other_loop_current': rng.random() < 0.2}
                 # checkpoints written by a persister; the writing instance runs on for 1-3 boundaries before the crash (lost work)
                 for cs in rng.sample(sets, min(len(sets), 6 if tier == 'quick' else 20)):
                     yield {'kind': 'process', 'name': name, 'program': prog, 'inputs': inputs, 'ctx': ctxprog, 'crash': cs,
@@ -181,7 +181,9 @@ def run_case(case):
             r = persist.run_with_crashes(make, case['crash'], resume, persister=pers, lag=case['lag'])
             obs['lost_work_restores'] = int(case['lag'] > 0 and r.get('restores', 0) > 0)
         else:
-            r = persist.run_with_crashes(make, case['crash'], resume, transport=_transport(case['transport'], workdir))
+            r = persist.run_with_crashes(make, case['crash'], resume, transport=_transport(case['transport'], workdir),
+                                         other_loop_current=bool(case.get('other_loop_current')))
+            obs['loaded_with_other_loop_current'] = int(bool(case.get('other_loop_current')) and r.get('restores', 0) > 0)
     finally:
         shutil.rmtree(workdir, ignore_errors=True)
     if r.get('inconclusive'):
